@@ -18,10 +18,10 @@ RULE = ('1-5 of 11 volatile chemicals, compositions incl. zeros and traces (1e-1
         'P_dew <= P_bubble, single component = Tsat/Psat, permutation, scale. added by the coverage audit: UNIFAC activity coefficients and the ideal-gas Poynting factor; solve_P(solve_T(P)) = P; the call form '
         'BubblePoint / DewPoint(z as list / tuple, T= | P=) and its result object (echoed value, IDs, normalised z, y / x, value of the solve_* method); Stream.bubble_point_at_T / _at_P / dew_point_at_T / _at_P with flows k*z (default, '
         'explicit and IDs= forms) against the solver; permuted compositions for all four solvers, random permutations for n = 4; single component with k*z, through the call form and at another list position; a solver on a subset of the '
-        'package against a package of that subset; the cached instance against a fresh one. oracle audit: reference models built from the package (clause wiring: the solver holds models of the classes of the package for exactly its chemicals); a temperature returned at / outside the domain of the solver is a violation when the evaluation by the harness of the equation at both ends of the common vapour-pressure window brackets a root, and a refusal (InfeasibleRegion / DomainError / NoEquilibrium) is granted only where the harness sees no root; an iterate that is not a root is tolerated as the recorded non-convergence only for T-solves above 5e5 Pa / P-solves above 0.85 Tc or 5e5 Pa (family, ideal) and judged strictly below; k*z through solve_Ty / solve_Px / solve_Tx must be the root of the as-given equation (the recorded mechanism) where the harness sees one. thorough run 11: the recorded non-convergence of DewPoint.solve_Tx on family / ideal inputs is also recognised (own keys, own rate bounds) below 5e5 Pa where the first stage _Tx_ideal of the solver returned a point that is no root of the ideal equation (the stagnated inverse-quadratic interpolation the secant is started from), and through k*z with k = 0.5 / 2 on the as-given problem (= the dew temperature at k*P: bucket of k*P, own error function with the amounts as given not at a root). non-trivial = >=2 components above 1e-6 and a converged residual evaluated; distinct = hash of the case')
+        'package against a package of that subset; the cached instance against a fresh one. oracle audit: reference models built from the package (clause wiring: the solver holds models of the classes of the package for exactly its chemicals); a temperature returned at / outside the domain of the solver is a violation when the evaluation by the harness of the equation at both ends of the common vapour-pressure window brackets a root, and a refusal (InfeasibleRegion / DomainError / NoEquilibrium) is granted only where the harness sees no root; an iterate that is not a root is tolerated as the recorded non-convergence only for T-solves above 5e5 Pa / P-solves above 0.85 Tc or 5e5 Pa (family, ideal) and judged strictly below; k*z through solve_Ty / solve_Px / solve_Tx must be the root of the as-given equation (the recorded mechanism) where the harness sees one; a bubble temperature for k*z that misses it is keyed by what the error function of the solver says there (.../unconverged-iterate = not at a root: the recorded unchecked secant; cross-family, or as-given pressure above 5e5 Pa). non-trivial = >=2 components above 1e-6 and a converged residual evaluated; distinct = hash of the case')
 MIN_NONTRIVIAL = {'quick': 300, 'thorough': 8000}
 ASSUMPTIONS = ['residuals are recomputed from harness-side models built from the package: th.Gamma(chemicals), th.Phi(chemicals), th.PCF(chemicals), Chemical.Psat (the activity / Poynting / vapour-pressure models themselves are data here; C16 judges them)',
-               'the classification "unconverged iterate" (recorded finding) still reads the solver\'s private _T_error / _P_error at the returned point; it is granted for family / ideal inputs only in the high-pressure / near-critical bucket decided from the inputs and a harness-side Raoult estimate; below 5e5 Pa a solve_Tx iterate is filed under the recorded mechanism (key .../ideal-guess-stagnated) only when the solver\'s private first stage _Tx_ideal, called by the harness on the same amounts, returns an interior point at which the harness-side ideal equation 1 - sum(w P / Psat) is off by more than 1e-6',
+               'the classification "unconverged iterate" (recorded finding) still reads the solver\'s private _T_error / _P_error at the returned point; it is granted for family / ideal inputs only in the high-pressure / near-critical bucket decided from the inputs and a harness-side Raoult estimate',
                'dew-side permutation tolerance is 1e-4 K / 1e-6 relative in P (the inner dew iteration is not converged tighter than that); input classes: "family" = all members from one homologous family or ideal package; "cross-family" = non-ideal package with members of different families']
 FAMILIES = {'alcohol': ('Methanol', 'Ethanol', 'Propanol', 'Butanol'), 'alkane-aromatic': ('Hexane', 'Heptane', 'Octane', 'Benzene', 'Toluene'), 'other': ('Water', 'Acetone')}
 ALL = tuple(i for f in FAMILIES.values() for i in f)
@@ -36,9 +36,7 @@ def required(tier):
             'permutation:random', 'subset-of-package', 'fresh-instance', 'cache',
             # oracle audit
             'wiring', 'wiring:permuted', 'scale:as-given-root:BubblePoint.solve_Ty', 'scale:as-given-root:DewPoint.solve_Px', 'scale:as-given-root:DewPoint.solve_Tx',
-            'bucket:solve_Tx/low-pressure/family', 'bucket:solve_Tx/low-pressure/ideal-package', 'bucket:solve_Px/low-pressure/family', 'bucket:solve_Px/low-pressure/ideal-package',
-            # thorough run 11 triage: denominators of the rate bounds of the dew-temperature non-convergence seen through the as-given (k*z) problem
-            'scale:as-given-high-pressure:solve_Tx/k=0.5,2/family', 'scale:as-given-high-pressure:solve_Tx/k=0.5,2/ideal-package']
+            'bucket:solve_Tx/low-pressure/family', 'bucket:solve_Tx/low-pressure/ideal-package', 'bucket:solve_Px/low-pressure/family', 'bucket:solve_Px/low-pressure/ideal-package']
 
 
 def thermo(ids, ideal, pkg=None):
@@ -233,37 +231,10 @@ def bucket(ref, z, method, T, P):
     return 'high-pressure' if not (est <= 5e5) else 'low-pressure'
 
 
-def tx_guess_stagnated(rec, dp, ref, w, P):
-    """mechanism of the recorded non-convergence of DewPoint.solve_Tx, read off the solver's own first stage: solve_Tx starts its secant at _Tx_ideal(w*P), an inverse-quadratic
-    interpolation of 1 - sum(w P / Psat(T)) over [Tmin+10, Tmax-10] run with checkiter=False; where it stagnates (the function is -1e7..-1e8 at the cold end and below 1 at the hot end) the
-    'guess' is an iterate next to Tmax-10 that is no root of that ideal equation, and the secant started there can stop on a vanishing step.  True: the first stage returned an interior
-    point that is not a root of its own equation (evaluated by the harness from its own Psat handles); False: it returned a root or one of its two edges; None: could not be evaluated"""
-    try:
-        wP = np.asarray(w, float) * P
-        Tg = float(dp._Tx_ideal(wP.copy())[0])
-    except PROGRAMMING as e:
-        harness_error(rec, 'dew-residual', f'the solver\'s private first stage _Tx_ideal could not be called for the classification: {type(e).__name__}: {e}')
-        return None
-    except Exception:
-        return None
-    if Tg == dp.Tmin + 10. or Tg == dp.Tmax - 10. or not np.isfinite(Tg): return False
-    try: res = 1.0 - float(sum(wP[j] / float(ref.Psats[j](Tg)) for j in range(len(wP)) if wP[j] > 0))
-    except Exception: return None
-    return bool(abs(res) > 1e-6)
-
-
-def unc_sfx(*statuses):
-    """key suffix of a clause that uses a dew result classified as the recorded non-convergence ('' if none is)"""
-    if 'unconverged' in statuses: return '/dew-unconverged'
-    if 'unconverged-guess' in statuses: return '/dew-unconverged/low-pressure-ideal-guess-stagnated'
-    return ''
-
-
 def dew_status(rec, dp, ref, z, T, P, x, method, cls):
     """'ok' | 'unconverged' (the recorded finding: the solver's own error function is not at a root at the returned point - an iterate returned silently because
     the iteration runs with checkiter=False; granted on cross-family inputs and, for family / ideal inputs, in the high-pressure bucket only) | 'unconverged-low'
-    (the same observation in the low-pressure bucket of a family / ideal input: judged strictly) | 'unconverged-guess' (solve_Tx in the low-pressure bucket of a family / ideal input where
-    the solver's own first stage _Tx_ideal handed the secant a point that is no root of the ideal equation: the recorded mechanism shown by the library's own intermediate result, own key) | 'wrong' (the solver believes it converged but the dew equation does
+    (the same observation in the low-pressure bucket of a family / ideal input: judged strictly) | 'wrong' (the solver believes it converged but the dew equation does
     not hold) | 'unclassified' (not a root, and the solver's own error function raised there) | 'non-physical' (non-finite or non-positive value / composition) |
     'harness-error' (the harness could not evaluate: filed as a harness error, run inconclusive)"""
     x = np.asarray(x, float)
@@ -292,12 +263,10 @@ def dew_status(rec, dp, ref, z, T, P, x, method, cls):
     if own is not None and np.isfinite(own) and abs(own) <= 1e-7 and inner <= 1e-7: return 'wrong', res
     if cls == 'cross-family': return 'unconverged', res
     if own is None: return 'unclassified', res
-    if bucket(ref, z, method, T, P) == 'high-pressure': return 'unconverged', res
-    if method == 'solve_Tx' and tx_guess_stagnated(rec, dp, ref, zn, P) is True: return 'unconverged-guess', res
-    return 'unconverged-low', res
+    return ('unconverged' if bucket(ref, z, method, T, P) == 'high-pressure' else 'unconverged-low'), res
 
 
-DEW_KEY = {'unconverged': 'unconverged-iterate', 'unconverged-low': 'low-pressure/iterate-not-a-root', 'unconverged-guess': 'low-pressure/unconverged-iterate/ideal-guess-stagnated', 'wrong': 'converged-but-wrong', 'unclassified': 'not-a-root/own-error-function-raised',
+DEW_KEY = {'unconverged': 'unconverged-iterate', 'unconverged-low': 'low-pressure/iterate-not-a-root', 'wrong': 'converged-but-wrong', 'unclassified': 'not-a-root/own-error-function-raised',
            'non-physical': 'non-physical-result'}
 
 
@@ -333,25 +302,24 @@ def as_given_class(ref, method, z, k, T0, P0, r, Tlo, Thi):
     return 'missed' if inside is True else 'no-root'
 
 
-def as_given_tx_mechanism(rec, dp, ref, z, k, P0, r, Tlo, Thi, agb):
-    """a solve_Tx result for k*z that missed the root of the as-given equation: is it the recorded non-convergence of the dew-temperature solver on the as-given problem (= the dew
-    temperature of the normalised composition at k*P0)?  '/as-given-high-pressure/unconverged-iterate': the solver's own error function (with the amounts as given) is not at a root at the
-    returned point and k*P0 lies in the high-pressure bucket (above 5e5 Pa); '/as-given-low-pressure/ideal-guess-stagnated': the same below 5e5 Pa where the solver's own first stage
-    _Tx_ideal(k*z*P0) returned a point that is no root of the ideal equation; '' otherwise (own error function at a root, point outside the domain, first stage fine: strict)"""
-    T = float(r[0]); x = np.asarray(r[1], float)
-    if not (np.isfinite(T) and Tlo < T < Thi and np.isfinite(x).all()): return ''
+def as_given_ty_mechanism(rec, bp, ref, z, k, P0, r, Tlo, Thi, cls):
+    """a solve_Ty result for k*z that missed the root of the as-given bubble equation (= the bubble temperature of the normalised composition at P0 / k): the same classification as
+    bubble_iterate_sfx gives the direct clause, with the solver's own error function evaluated on the amounts as given.  '/unconverged-iterate' (recorded finding: the unchecked
+    secant of BubblePoint.solve_Ty returned a point at which its own error function is not at a root; cross-family inputs, and family / ideal inputs whose as-given problem lies above
+    5e5 Pa), '/low-pressure/iterate-not-a-root' (the same on family / ideal inputs below 5e5 Pa: no recorded finding), '' (own error function at a root, or the point lies outside the domain)"""
+    T = float(r[0]); y = np.asarray(r[1], float)
+    if not (np.isfinite(T) and Tlo < T < Thi and np.isfinite(y).all()): return ''
     w = k * z
     try:
-        own = dp._T_error(T, P0, z / z.sum(), w * P0, x.copy())
+        own = bp._T_error(T, P0, w / P0, z / z.sum(), y.copy())
     except PROGRAMMING as e:
         harness_error(rec, 'scale', f'the solver\'s private error function could not be called for the classification: {type(e).__name__}: {e}')
         return ''
     except Exception:
         return ''
     if np.isfinite(own) and abs(own) <= 1e-7: return ''
-    if agb == 'high-pressure': return '/as-given-high-pressure/unconverged-iterate'
-    if tx_guess_stagnated(rec, dp, ref, w, P0) is True: return '/as-given-low-pressure/ideal-guess-stagnated'
-    return ''
+    if cls == 'cross-family' or not (P0 / float(w.sum()) <= 5e5): return '/unconverged-iterate'
+    return '/low-pressure/iterate-not-a-root'
 
 
 def run_case(case, rec):
@@ -481,7 +449,7 @@ def run_case(case, rec):
                           f'{mname}: returned {"P" if mname == "solve_Px" else "T"}={val!r} at {"T=%s" % T0 if mname == "solve_Px" else "P=%s" % P0}: the dew equation gives 1 - sum(x) = {res!r}, x={x.tolist()} '
                           f'(z={z.tolist()}, ids={ids}, class={cls}); status: {st}')
     def dew_sfx(*methods):
-        return unc_sfx(*[dew_bad.get(m) for m in methods])
+        return '/dew-unconverged' if any(dew_bad.get(m) == 'unconverged' for m in methods) else ''
     # ---- inverse relation
     if Pb is not None and 5e3 <= Pb[0] <= 3e6:
         r = call('inverse:solve_Ty(solve_Py)', lambda: bp.solve_Ty(z.copy(), Pb[0]), ('inverse', f'bubble/{cls}'))
@@ -492,11 +460,11 @@ def run_case(case, rec):
                 isfx = bubble_iterate_sfx(rec, bp, ref, z, r[0], Pb[0], r[1], cls) if Tlo < r[0] < Thi else ''
             rec.check(abs(r[0] - T0) <= 1e-4, 'inverse', f'bubble/{cls}{isfx}', f'solve_Ty(z, solve_Py(z,{T0}).P={Pb[0]!r}).T = {r[0]!r}', residual=abs(r[0] - T0))
     if Pd is not None and 5e3 <= Pd[0] <= 3e6:
-        r = call('inverse:solve_Tx(solve_Px)', lambda: dp.solve_Tx(z.copy(), Pd[0]), ('inverse', f'dew/{cls}' + unc_sfx(dew_bad.get('solve_Px'))), None, dew_exc('solve_Tx', T0, Pd[0], 'inverse'))
+        r = call('inverse:solve_Tx(solve_Px)', lambda: dp.solve_Tx(z.copy(), Pd[0]), ('inverse', f'dew/{cls}' + ('/dew-unconverged' if dew_bad.get('solve_Px') == 'unconverged' else '')), None, dew_exc('solve_Tx', T0, Pd[0], 'inverse'))
         if r is not None and Tlo + 1 < T0 < Thi - 1:
             # (a temperature at the edge of the domain is not "unconverged": T0 lies inside, so the dew pressure just computed has a root there)
             st2, _ = dew_status(rec, dp, ref, z, r[0], Pd[0], r[1], 'solve_Tx', cls) if Tlo < r[0] < Thi else ('edge', 0)
-            sfx = unc_sfx(dew_bad.get('solve_Px'), st2)
+            sfx = '/dew-unconverged' if (dew_bad.get('solve_Px') == 'unconverged' or st2 == 'unconverged') else ''
             if not sfx and abs(r[0] - T0) > 1e-4 and dew_bad.get('solve_Px') == 'ok' and st2 == 'ok':
                 sfx = '/multiple-roots'     # both points satisfy the dew equation at this pressure: two incipient liquids (partially miscible mixture)
             rec.check(abs(r[0] - T0) <= 1e-4, 'inverse', f'dew/{cls}{sfx}', f'solve_Tx(z, solve_Px(z,{T0}).P={Pd[0]!r}).T = {r[0]!r}', residual=abs(r[0] - T0))
@@ -535,7 +503,7 @@ def run_case(case, rec):
                 stage = 'dew-P'
                 r = dpp.solve_Px(zp.copy(), T0)
                 stp, _ = dew_status(rec, dpp, refp, zp, T0, r[0], r[1], 'solve_Px', cls)
-                rec.check(abs(r[0] - Pd[0]) <= 1e-6 * Pd[0] + 1e-2, 'permutation', f'dew-P/{cls}' + unc_sfx(stp, dew_bad.get('solve_Px')), f'dew pressure depends on the order of the chemicals: {Pd[0]!r} vs {r[0]!r} for order {pid}')
+                rec.check(abs(r[0] - Pd[0]) <= 1e-6 * Pd[0] + 1e-2, 'permutation', f'dew-P/{cls}' + ('/dew-unconverged' if (stp == 'unconverged' or dew_bad.get('solve_Px') == 'unconverged') else ''), f'dew pressure depends on the order of the chemicals: {Pd[0]!r} vs {r[0]!r} for order {pid}')
                 if stp == 'ok' and dew_bad.get('solve_Px') == 'ok' and abs(r[0] - Pd[0]) <= 1e-6 * Pd[0] + 1e-2:
                     rec.check(np.allclose(r[1], np.asarray(Pd[1])[list(p)], rtol=0, atol=1e-5), 'permutation', f'dew-P-x/{cls}', f'the liquid composition at the dew pressure is not permuted with the list: {np.asarray(Pd[1])[list(p)].tolist()} vs {np.asarray(r[1]).tolist()} for order {pid}')
             if Td is not None and Tlo < Td[0] < Thi:
@@ -543,14 +511,14 @@ def run_case(case, rec):
                 r = dpp.solve_Tx(zp.copy(), P0)
                 # (the base result lies inside the domain: an edge returned for the permuted list is a dependence on the order, not "unconverged")
                 stp, _ = dew_status(rec, dpp, refp, zp, r[0], P0, r[1], 'solve_Tx', cls) if Tlo < r[0] < Thi else ('edge', 0)
-                rec.check(abs(r[0] - Td[0]) <= 1e-4, 'permutation', f'dew-T/{cls}' + unc_sfx(stp, dew_bad.get('solve_Tx')), f'dew temperature depends on the order of the chemicals: {Td[0]!r} vs {r[0]!r} for order {pid}')
+                rec.check(abs(r[0] - Td[0]) <= 1e-4, 'permutation', f'dew-T/{cls}' + ('/dew-unconverged' if (stp == 'unconverged' or dew_bad.get('solve_Tx') == 'unconverged') else ''), f'dew temperature depends on the order of the chemicals: {Td[0]!r} vs {r[0]!r} for order {pid}')
                 if stp == 'ok' and dew_bad.get('solve_Tx') == 'ok' and abs(r[0] - Td[0]) <= 1e-4:
                     rec.check(np.allclose(r[1], np.asarray(Td[1])[list(p)], rtol=0, atol=1e-5), 'permutation', f'dew-T-x/{cls}', f'the liquid composition at the dew temperature is not permuted with the list: {np.asarray(Td[1])[list(p)].tolist()} vs {np.asarray(r[1]).tolist()} for order {pid}')
         except Exception as e:
             if type(e).__name__ in ('InfeasibleRegion', 'DomainError'):
                 # the same problem on the list in its first order has just been solved: a refusal here is a dependence on the order
                 rec.hit('refusal:not-warranted')
-                rec.check(False, 'permutation', f'{stage}/{cls}/refused' + (unc_sfx(dew_bad.get('solve_Px' if stage == 'dew-P' else 'solve_Tx')) if stage.startswith('dew') else ''),
+                rec.check(False, 'permutation', f'{stage}/{cls}/refused' + (('/dew-unconverged' if dew_bad.get('solve_Px' if stage == 'dew-P' else 'solve_Tx') == 'unconverged' else '') if stage.startswith('dew') else ''),
                           f'the solver on the permuted list {pid} refused ({type(e).__name__}: {str(e)[:100]}) the problem ({stage}) it solved for the order {ids}'); continue
             rec.exception(f'permutation/{cls}', e, what=f'solver on the permuted list {pid} raised {type(e).__name__}: {str(e)[:100]}'); break
     # ---- scale of z: through the public call form and through the solve_* methods
@@ -567,7 +535,7 @@ def run_case(case, rec):
                 sa = dew_status(rec, dp, ref, z, T0 if 'T' in kw else a.T, a.P if 'T' in kw else P0, a.x, m_, cls)[0] if ('T' in kw or Tlo < a.T < Thi) else 'edge'
                 # only an unconverged result for z itself excuses the comparison: the call form normalises, so k*z reaches the solver as z
                 # (a wrong answer for k*z alone is exactly what this clause is about and must not be classified away)
-                sfx = unc_sfx(sa)
+                if sa == 'unconverged': sfx = '/dew-unconverged'
             rec.check(abs(va - vb) <= 1e-7 * abs(va), 'scale', f'call/{name}/{cls}{sfx}', f'{name}: z gives {va!r} but {k}*z gives {vb!r}', detail={'z': z.tolist(), 'k': k, 'ids': ids})
         except Exception as e:
             if type(e).__name__ in ('InfeasibleRegion', 'DomainError'):
@@ -605,12 +573,8 @@ def run_case(case, rec):
             rec.hit(f'scale:as-given-{ag}:{name}')
             if ag == 'missed': sfx = f'/as-given-root-missed/{KTAG.get(k, "k=other")}/{cls}'
             elif ag == 'no-root': sfx = f'/no-as-given-root/{KTAG.get(k, "k=other")}'
-            if meth == 'solve_Tx' and k in (0.5, 2.0) and cls != 'cross-family' and ag in ('root', 'missed'):
-                # the as-given problem of solve_Tx is the dew temperature of the normalised composition at sum(k*z)*P0: the recorded non-convergence of that solver (family / ideal inputs: above 5e5 Pa,
-                # or where its own first stage stagnated) shows here as a missed as-given root.  reach counter = as-given problems with a root per pressure bucket and class (denominator of the rate bounds)
-                agb = 'high-pressure' if not (float((k * z).sum()) * P0 <= 5e5) else 'low-pressure'
-                rec.hit(f'scale:as-given-{agb}:solve_Tx/k=0.5,2/{cls}')
-                if ag == 'missed': sfx += as_given_tx_mechanism(rec, dp, ref, z, k, P0, r, Tlo, Thi, agb)
+            # (bubble side: a missed as-given root at which the solver's own error function is not at a root is the recorded unchecked-secant mechanism; the key says so and keeps the input class)
+            if ag == 'missed' and meth == 'solve_Ty': sfx += as_given_ty_mechanism(rec, bp, ref, z, k, P0, r, Tlo, Thi, cls)
         rec.check(same, 'scale', f'method/{name}{sfx}', f'{name}: z gives {base[0]!r} but {k}*z gives {r[0]!r}' + (f' (as-given equation: {sfx[1:]})' if sfx else ''), detail={'z': z.tolist(), 'k': k, 'ids': ids})
     try: extra(case, rec, th, chems, bp, dp, z, T0, P0, cls, Pb, Tb, Pd, Td, dew_bad, call, bub_bad)
     except Exception as e: rec.exception('harness', e, what=f'harness error in the additional clauses: {type(e).__name__}: {e}')
@@ -680,14 +644,14 @@ def extra(case, rec, th, chems, bp, dp, z, T0, P0, cls, Pb, Tb, Pd, Td, dew_bad,
         r = call('inverse:solve_Py(solve_Ty)', lambda: bp.solve_Py(z.copy(), Tb[0]), ('inverse', f'bubble-P/{cls}' + ('/bubble-unconverged' if bub_bad.get('solve_Ty') else '')))
         # (equivalent of the 1e-4 K bound of the T<-P<-T direction: d ln P / dT of a bubble line is below 0.1 / K)
         if r is not None: rec.check(abs(r[0] - P0) <= 1e-5 * P0, 'inverse', f'bubble-P/{cls}' + ('/bubble-unconverged' if bub_bad.get('solve_Ty') else ''), f'solve_Py(z, solve_Ty(z,{P0}).T={Tb[0]!r}).P = {r[0]!r}', residual=abs(r[0] - P0) / P0)
-    if Td is not None and Tlo + 1 < Td[0] < Thi - 1 and dew_bad.get('solve_Tx') in ('ok', 'unconverged', 'unconverged-guess', 'wrong', 'unconverged-low', 'unclassified'):
-        r = call('inverse:solve_Px(solve_Tx)', lambda: dp.solve_Px(z.copy(), Td[0]), ('inverse', (f'dew-P/{cls}' + unc_sfx(dew_bad.get('solve_Tx')) if unc_sfx(dew_bad.get('solve_Tx')) else f'dew/{cls}/P-from-T')), None,
+    if Td is not None and Tlo + 1 < Td[0] < Thi - 1 and dew_bad.get('solve_Tx') in ('ok', 'unconverged', 'wrong', 'unconverged-low', 'unclassified'):
+        r = call('inverse:solve_Px(solve_Tx)', lambda: dp.solve_Px(z.copy(), Td[0]), ('inverse', (f'dew-P/{cls}/dew-unconverged' if dew_bad.get('solve_Tx') == 'unconverged' else f'dew/{cls}/P-from-T')), None,
                  'inverse/cross-family' if cls == 'cross-family' else f'inverse/solve_Px/{cls}/{bucket(ref, z, "solve_Px", Td[0], P0)}')
         if r is not None:
             st2, _ = dew_status(rec, dp, ref, z, Td[0], r[0], r[1], 'solve_Px', cls)
-            sfx = unc_sfx(dew_bad.get('solve_Tx'), st2)
+            sfx = '/dew-unconverged' if (dew_bad.get('solve_Tx') == 'unconverged' or st2 == 'unconverged') else ''
             if not sfx and abs(r[0] - P0) > 1e-5 * P0 and dew_bad.get('solve_Tx') == 'ok' and st2 == 'ok': sfx = '/multiple-roots'
-            key = f'dew-P/{cls}{sfx}' if sfx.startswith('/dew-unconverged') else f'dew/{cls}/P-from-T{sfx}'
+            key = f'dew-P/{cls}/dew-unconverged' if sfx == '/dew-unconverged' else f'dew/{cls}/P-from-T{sfx}'
             rec.check(abs(r[0] - P0) <= 1e-5 * P0, 'inverse', key, f'solve_Px(z, solve_Tx(z,{P0}).T={Td[0]!r}).P = {r[0]!r}', residual=abs(r[0] - P0) / P0)
     # ---- the public call form and its result object: the given value is echoed, z and y / x are returned normalised, the value is that of the solve_* method on the normalised z
     for name, obj, kw, base, meth in (('BubblePoint(z,T)', bp, {'T': T0}, Pb, 'solve_Py'), ('BubblePoint(z,P)', bp, {'P': P0}, Tb, 'solve_Ty'), ('DewPoint(z,T)', dp, {'T': T0}, Pd, 'solve_Px'), ('DewPoint(z,P)', dp, {'P': P0}, Td, 'solve_Tx')):
@@ -699,7 +663,7 @@ def extra(case, rec, th, chems, bp, dp, z, T0, P0, cls, Pb, Tb, Pd, Td, dew_bad,
                     # the call form normalises: it poses the problem the solve_* method has just solved
                     if 'T' in kw or Tlo < base[0] < Thi:
                         rec.hit('refusal:not-warranted')
-                        rec.check(False, 'call-form', f'value/{name}/{cls}/refused' + (unc_sfx(dew_bad.get(meth)) if name.startswith('Dew') else ''), f'{name} with z as a {form} refused ({type(e).__name__}: {str(e)[:100]}) the problem {meth} solved')
+                        rec.check(False, 'call-form', f'value/{name}/{cls}/refused' + ('/dew-unconverged' if name.startswith('Dew') and dew_bad.get(meth) == 'unconverged' else ''), f'{name} with z as a {form} refused ({type(e).__name__}: {str(e)[:100]}) the problem {meth} solved')
                     else: rec.refuse('call form refused (the solve_* result on this input lies at an edge of the domain)')
                     continue
                 rec.exception(f'call-form/{cls}', e, what=f'{name} with z as a {form} raised {type(e).__name__}: {str(e)[:100]}'); continue
@@ -708,11 +672,11 @@ def extra(case, rec, th, chems, bp, dp, z, T0, P0, cls, Pb, Tb, Pd, Td, dew_bad,
             comp = np.asarray(a.y if name.startswith('Bubble') else a.x, float)
             dsfx = ''
             if name.startswith('Dew'):
-                if unc_sfx(dew_bad.get(meth)): dsfx = unc_sfx(dew_bad.get(meth))
+                if dew_bad.get(meth) == 'unconverged': dsfx = '/dew-unconverged'
                 elif dew_bad.get(meth) != 'ok': dsfx = '/' + cls + '-dew-not-ok'
             rec.check(given == (T0 if 'T' in kw else P0) and tuple(a.IDs) == tuple(c.ID for c in chems), 'call-form', f'echo/{name}', f'{name}: result carries {"T" if "T" in kw else "P"}={given!r} and IDs {a.IDs} for the given {kw} on {ids}')
             rec.check(abs(np.asarray(a.z, float).sum() - 1) <= 1e-12 and np.allclose(np.asarray(a.z, float), zn, rtol=1e-12, atol=0), 'normalised', f'call/{name}/z', f'{name}: result z {np.asarray(a.z).tolist()} is not the normalised composition {zn.tolist()}')
-            if not dsfx or dsfx.startswith('/dew-unconverged'):
+            if not dsfx or dsfx == '/dew-unconverged':
                 rec.check(abs(comp.sum() - 1) <= 1e-12 and (comp >= 0).all(), 'normalised', f'call/{name}/{cls}{dsfx}', f'{name}: returned {"y" if name.startswith("Bubble") else "x"} {comp.tolist()} sums to {comp.sum()!r}')
             if 'T' in kw or Tlo < base[0] < Thi:
                 # the call form normalises: it is the solve_* method on z / sum(z)
@@ -729,7 +693,7 @@ def extra(case, rec, th, chems, bp, dp, z, T0, P0, cls, Pb, Tb, Pd, Td, dew_bad,
             if name.endswith('_P') and not (Tlo < base[0] < Thi): continue
             dsfx = ''
             if name.startswith('dew'):
-                if unc_sfx(dew_bad.get(meth)): dsfx = unc_sfx(dew_bad.get(meth))
+                if dew_bad.get(meth) == 'unconverged': dsfx = '/dew-unconverged'
                 elif dew_bad.get(meth) != 'ok': continue
                 if cls == 'cross-family': rec.refuse('stream-level dew point on a cross-family non-ideal mixture: not judged (dew-side clauses are judged on family / ideal inputs)'); continue
             for form in (('default', 'explicit', 'IDs')[case['pseed'] % 3],):
@@ -762,7 +726,7 @@ def extra(case, rec, th, chems, bp, dp, z, T0, P0, cls, Pb, Tb, Pd, Td, dew_bad,
                     check_wiring(rec, dps, refs, 'DewPoint/stream-level')
                     # (the solver's result lies inside the domain: an edge returned at stream level is a disagreement, not "unconverged")
                     st_ = dew_status(rec, dps, refs, zs_, T0 if name.endswith('_T') else a.T, a.P if name.endswith('_T') else P0, comp, meth, cls)[0] if (name.endswith('_T') or Tlo < a.T < Thi) else 'edge'
-                    dsfx2 = unc_sfx(st_)
+                    if st_ == 'unconverged': dsfx2 = '/dew-unconverged'
                 # the subset solver sees the same mixture without the absent members: same value to the solvers' resolution (1e-7 relative as for the scale clause; compositions 1e-6)
                 tolv = (1e-7 * abs(base[0]) + (2e-3 if name.endswith('_T') else 0.0)) if not name.startswith('dew') else (1e-6 * abs(base[0]) + 1e-2 if name.endswith('_T') else 1e-4)
                 if name == 'bubble_point_at_P' and bub_bad.get('solve_Ty'): dsfx2 = '/bubble-unconverged'
@@ -795,22 +759,22 @@ def extra(case, rec, th, chems, bp, dp, z, T0, P0, cls, Pb, Tb, Pd, Td, dew_bad,
                 stage = 'bubble-T'
                 r = bpp.solve_Ty(zp.copy(), P0)
                 rec.check(abs(r[0] - Tb[0]) <= 1e-9 * Tb[0] + 1e-8 and np.allclose(r[1], np.asarray(Tb[1])[p], rtol=1e-6, atol=1e-12), 'permutation', f'bubble-T/{cls}' + ('/bubble-unconverged' if bub_bad.get('solve_Ty') else ''), f'bubble temperature / y depend on the order of the chemicals: {Tb[0]!r}, {np.asarray(Tb[1])[p].tolist()} vs {r[0]!r}, {np.asarray(r[1]).tolist()} for order {pid}')
-            if Pd is not None and dew_bad.get('solve_Px') in ('ok', 'unconverged', 'unconverged-guess'):
+            if Pd is not None and dew_bad.get('solve_Px') in ('ok', 'unconverged'):
                 stage = 'dew-P'
                 r = dpp.solve_Px(zp.copy(), T0)
                 stp, _ = dew_status(rec, dpp, refp, zp, T0, r[0], r[1], 'solve_Px', cls)
-                sfx = unc_sfx(stp, dew_bad.get('solve_Px'))
+                sfx = '/dew-unconverged' if (stp == 'unconverged' or dew_bad.get('solve_Px') == 'unconverged') else ''
                 rec.check(abs(r[0] - Pd[0]) <= 1e-6 * Pd[0] + 1e-2 and (bool(sfx) or np.allclose(r[1], np.asarray(Pd[1])[p], rtol=0, atol=1e-5)), 'permutation', f'dew-P/{cls}{sfx}', f'dew pressure / x depend on the order of the chemicals: {Pd[0]!r}, {np.asarray(Pd[1])[p].tolist()} vs {r[0]!r}, {np.asarray(r[1]).tolist()} for order {pid}')
-            if Td is not None and Tlo < Td[0] < Thi and dew_bad.get('solve_Tx') in ('ok', 'unconverged', 'unconverged-guess'):
+            if Td is not None and Tlo < Td[0] < Thi and dew_bad.get('solve_Tx') in ('ok', 'unconverged'):
                 stage = 'dew-T'
                 r = dpp.solve_Tx(zp.copy(), P0)
                 stp, _ = dew_status(rec, dpp, refp, zp, r[0], P0, r[1], 'solve_Tx', cls) if Tlo < r[0] < Thi else ('edge', 0)
-                sfx = unc_sfx(stp, dew_bad.get('solve_Tx'))
+                sfx = '/dew-unconverged' if (stp == 'unconverged' or dew_bad.get('solve_Tx') == 'unconverged') else ''
                 rec.check(abs(r[0] - Td[0]) <= 1e-4 and (bool(sfx) or np.allclose(r[1], np.asarray(Td[1])[p], rtol=0, atol=1e-5)), 'permutation', f'dew-T/{cls}{sfx}', f'dew temperature / x depend on the order of the chemicals: {Td[0]!r}, {np.asarray(Td[1])[p].tolist()} vs {r[0]!r}, {np.asarray(r[1]).tolist()} for order {pid}')
         except Exception as e:
             if refusal(e):
                 rec.hit('refusal:not-warranted')
-                rec.check(False, 'permutation', f'{stage}/{cls}/refused' + (unc_sfx(dew_bad.get('solve_Px' if stage == 'dew-P' else 'solve_Tx')) if stage.startswith('dew') else ''),
+                rec.check(False, 'permutation', f'{stage}/{cls}/refused' + (('/dew-unconverged' if dew_bad.get('solve_Px' if stage == 'dew-P' else 'solve_Tx') == 'unconverged' else '') if stage.startswith('dew') else ''),
                           f'the solver on the permuted list {pid} refused ({type(e).__name__}: {str(e)[:100]}) the problem ({stage}) it solved for the order {ids}'); continue
             rec.exception(f'permutation/{cls}', e, what=f'solver on the permuted list {pid} raised {type(e).__name__}: {str(e)[:100]}'); break
     # ---- a solver built on a subset of the package's chemicals (the way the flash builds them) against a package that holds only that subset;
